@@ -28,7 +28,7 @@ def ms(x):
     return int(round(x * UNIT))
 
 
-EVK = {'r': 'ERead', 'ru': 'ERead', 'w': 'EWrite', 'start': 'EStart', 'stop': 'EStop',
+EVK = {'r': 'ERead', 'ru': 'ERead', 'rb': 'ERead', 'rn': 'ERead', 'w': 'EWrite', 'start': 'EStart', 'stop': 'EStop',
        'wait': 'EWait'}
 
 
@@ -98,6 +98,14 @@ class Driver(concdrv.ConcMixin):
                 br.flush()
                 vrt.pump_all()
                 log.append(('r', rt.now, len(rt.trace)))
+            elif kind in ('rb', 'rn'):
+                # flow control: a blocked connection is still an open connection - the frame is a
+                # life sign like any other and the heartbeat monitor carries on
+                br.send(0, spec.Connection.Blocked(reason='low on memory') if kind == 'rb'
+                        else spec.Connection.Unblocked())
+                br.flush()
+                vrt.pump_all()
+                log.append(('r', rt.now, len(rt.trace)))
             elif kind == 'w':
                 log.append(('w', rt.now, len(rt.trace)))
                 conn.write_frame(ch.channel_id, spec.Basic.Ack(delivery_tag=1))
@@ -159,7 +167,7 @@ class Driver(concdrv.ConcMixin):
             quiet += d
             if running and I and quiet >= 3 * I:
                 running = False          # declared dead by now
-            if k in ('r', 'ru'):
+            if k in ('r', 'ru', 'rb', 'rn'):
                 quiet = 0 if running else quiet
             elif k == 'start':
                 if running:
@@ -178,7 +186,7 @@ class Driver(concdrv.ConcMixin):
         for T in ([1, 3] if tier == 'quick' else [1, 2, 3]):
             I = 512 * T
             steps = [0, I // 2, I - 1, I, I + 1, 2 * I]
-            kinds = ['r', 'ru', 'w', 'wait', 'stop', 'start']
+            kinds = ['r', 'ru', 'rb', 'w', 'wait', 'stop', 'start']
             alpha = [(k, d) for k in kinds for d in steps] + [('wait', 3 * I), ('start', 3 * I)]
             count = 0
             for n in range(1, depth + 1):
@@ -208,8 +216,8 @@ class Driver(concdrv.ConcMixin):
                      'writes': [1, 8, 2, 0.3, 0.3],
                      'quiet': [0.5, 0.5, 8, 0.5, 0.5]}[mode]
                 k = rnd.choices(['r', 'w', 'wait', 'stop', 'start'], w)[0]
-                if k == 'r' and rnd.random() < 0.3:
-                    k = 'ru'
+                if k == 'r' and rnd.random() < 0.45:
+                    k = rnd.choice(['ru', 'ru', 'rb', 'rn'])
                 if T and rnd.random() < 0.04:
                     # a long silence (the peer is declared dead), then the connection is
                     # re-opened: start() without a stop() in between
